@@ -252,8 +252,9 @@ def cases(ctx: core.Ctx):
                 yield {"kind": "cmp", "ctx": c, "op": op, "a": a, "b": b, "alit": alit, "blit": blit, "async": (idx % 7 == 0)}
     ctx.extra["exhaustive"] = True
     ctx.extra["operand_lattice_size"] = len(OPERANDS)
-    depth = 3 if ctx.tier == "quick" else 4
-    lim = 900 if ctx.tier == "quick" else (20000 // max(1, ctx.nshards) + 200)
+    # depth 4 is not enumerable (trees(4) is ~1e10 candidate shapes and stalled every thorough shard): the thorough tier takes more depth-3 shapes instead
+    depth = 3
+    lim = 900 if ctx.tier == "quick" else 60000
     ctx.extra["tree_depth"] = depth
     for i, c in enumerate(tree_cases(depth, rng, lim)):
         if ctx.tier == "quick" or i % ctx.nshards == ctx.shard:
